@@ -63,16 +63,22 @@ def image_job(N):
 
     def h(ex):
         m = ex.int('density')
-        ex.assume(z3.And(m.t >= 2, m.t <= 12))
+        ex.assume(z3.And(m.t >= 2, m.t <= 50 // N))      # every density with N*m <= 50
         lo, up = agp.BOXES[N]
         ev = evo.mk_evolvent(N, m, lo, up)            # symbolic density: the descent loop is split by the solver
         xi = ex.int('which_x')
-        xs = [0.5, 0.0, 1.0, 0.3, 0.7000000000000001, 0.123456789, 0.999999]
+        xs = [0.5, 0.0, 1.0, 0.3, 0.7000000000000001, 0.123456789, 0.999999, 1.0 - 2.0 ** -49]
         i = ex.concretize(xi.t, 0, len(xs) - 1)
         y = ev.GetImage(xs[i])
         mc = ev.evolventDensity if not isinstance(ev.evolventDensity, Sym) else ex.concretize(ev.evolventDensity.t)
+        mreq = ex.concretize(m.t)
+        ex.prove(mc == mreq, 'C20 IMAGE-CONFIG: the Evolvent keeps the density it was built with', {'N': N, 'm': mreq})
         for c in range(N):
             on_grid(ex, y[c], lo[c], up[c], mc, 'C20 IMAGE: GetImage lands on the cell-centre grid of the configured density', {'N': N, 'm': mc, 'x': xs[i]})
+        # at full depth the last two subintervals have different images
+        K = 2 ** (N * mreq)
+        ya, yb = ev.GetImage((2 * K - 3) / (2.0 * K)), ev.GetImage((2 * K - 1) / (2.0 * K))
+        ex.prove(any(float(a) != float(b) for a, b in zip(ya, yb)), 'C20 IMAGE-DEPTH: the two last subintervals of density m have different cells', {'N': N, 'm': mreq})
         ex.tag('image-density-%d' % mc)
         return mc
     ex = Explorer(mode='EXACT', name='IMAGE N=%d' % N, timeout_ms=30000)
@@ -120,6 +126,11 @@ class P(Problem):
     def Calculate(self, point, fv):
         self.log.append([float(v) for v in point.floatVariables]); fv.value = sum((v - 0.3) ** 2 for v in point.floatVariables); return fv
 bad = 0
+from iOpt.evolvent.evolvent import Evolvent
+for m in range(2, 50 // N + 1):
+    e = Evolvent(list(BOX[0]), list(BOX[1]), N, m); K = 2 ** (N * m)
+    if e.evolventDensity != m or list(e.GetImage((2 * K - 3) / (2.0 * K))) == list(e.GetImage((2 * K - 1) / (2.0 * K))):
+        print('REPRODUCED C20 IMAGE: N=%%d: an Evolvent built with density %%d has density %%r / does not separate its last two subintervals' %% (N, m, e.evolventDensity)); bad = 1; break
 for m, eps in [(m, e) for m in range(2, 13) for e in (1e-9, 0.3)]:
     p = P(); s = Solver(p, SolverParameters(r=2.5, eps=eps, itersLimit=12, evolventDensity=m)); s.Solve()
     if s.evolvent.evolventDensity != m:
@@ -153,7 +164,7 @@ def main():
         # longer runs on a coarse grid: intervals shrink to single cells of the evolvent
         cfg = dict(N=2, r=2.5, seed=sd, kpre=13, nsym=1, script=[('iter', 14)], density=2, overrides=['iter'], tags=['long-run-density-2'])
         jobs.append((run_job, (cfg, 'N=2 density 2: 14 trials of a concrete run (intervals shrink to single cells; ground part)')))
-    run.bound(density='symbolic integer 2..12 (solver-split), N = 2..5, non-symmetric boxes; first 2 iterations (3 for density <= 3) with arbitrary '
+    run.bound(density='Solver: symbolic integer 2..12; Evolvent alone: every density with N*m <= 50 (solver-split); N = 2..5, non-symmetric boxes; first 2 iterations (3 for density <= 3) with arbitrary '
                       'objective values; whole runs with symbolic trial locations for N = 2, density 2 (thorough: 3)')
     run.not_covered('densities above 12; N*m > 50 (binary64 exactness of the descent); symbolic boxes (C05/C07 box clause)')
     run.parallel(jobs)
@@ -172,7 +183,7 @@ def main():
         rr['cex'] = [x for x in rr.get('cex', []) if x['detail'].get('level') != 'c20']
     agp.confirm(run, WANT)
     run.finish('the solver builds its evolvent with the configured density and every trial coordinate is lower + (j+1/2)(upper-lower)/2^m',
-               vacuity=['density-2', 'density-7', 'density-12', 'image-density-2', 'image-density-12', 'run-density-2', 'long-run-density-2'])
+               vacuity=['density-2', 'density-7', 'density-12', 'image-density-2', 'image-density-12', 'image-density-25', 'run-density-2', 'long-run-density-2'])
 
 
 if __name__ == '__main__':
